@@ -132,6 +132,11 @@ pub enum TOp {
     OpenToBandEdge(u64),
     /// a long of the given (tiny) notional in raw units
     OpenDust(u64),
+    /// a BUY of the given (tiny) notional in raw units at 1x, with or without an existing position
+    OpenDustAny(u64),
+    /// same-side order of one and a half times the position's value with the base limit one unit on the wrong side of the quote (0)
+    /// or exactly at it (1)
+    IncreaseLim(u64),
 }
 #[derive(Clone, Copy, Debug, PartialEq)]
 pub enum Who {
@@ -946,6 +951,13 @@ fn realize(w: &World, r: &mut Rng, g: &mut GenCtx, plan: &Plan, vis: &[VInfo], p
                 dr
             };
             let mut dr = match (op, pos) {
+                (TOp::OpenDustAny(n), _) => {
+                    let mut dr = draft(trader, Msg::Open { v: v.id, side: 0, margin: *n as u128, lev: d, lim: 0 });
+                    if w.cfg.native {
+                        dr.funds = open_funds(w, Some(v), pos, 0, *n as u128, d);
+                    }
+                    dr
+                }
                 (TOp::OpenDust(n), None) => {
                     // 1x: margin = notional = n raw units (at 2x the rounding of the first valuation already eats the margin)
                     let mut dr = draft(trader, Msg::Open { v: v.id, side: 0, margin: *n as u128, lev: d, lim: 0 });
@@ -1115,6 +1127,25 @@ fn realize(w: &World, r: &mut Rng, g: &mut GenCtx, plan: &Plan, vis: &[VInfo], p
                     let mut dr = draft(trader, Msg::Open { v: v.id, side, margin: lo, lev: d, lim: 0 });
                     if w.cfg.native {
                         dr.funds = open_funds(w, Some(v), pos, side, lo, d);
+                    }
+                    dr
+                }
+                (TOp::IncreaseLim(k), Some(p)) if p.size != 0 => {
+                    // the side is taken from the SIGN of the stored size, not from the stored direction (which is what a defect may leave stale)
+                    let side: u64 = if p.sneg == 0 { 0 } else { 1 };
+                    let mut dr = open(side, value(p) * 3 / 2 + d);
+                    let n = if let Msg::Open { margin, lev, .. } = &dr.msg { mul_div(*margin, *lev, d) } else { 0 };
+                    let b = w
+                        .q::<Uint128, _>(&v.addr, &vamm::QueryMsg::InputAmount { direction: dirq(side), amount: Uint128::new(n) })
+                        .map(|x| x.u128())
+                        .unwrap_or(1);
+                    let want = match (k, side) {
+                        (0, 0) => b.saturating_add(1),
+                        (0, _) => b.saturating_sub(1).max(1),
+                        _ => b,
+                    };
+                    if let Msg::Open { lim, .. } = &mut dr.msg {
+                        *lim = want;
                     }
                     dr
                 }
@@ -2127,6 +2158,14 @@ pub fn gen_step(w: &World, r: &mut Rng, g: &mut GenCtx, k: u64, stats: &mut Stat
                     // first with the base limit one unit on the wrong side of the quote (must be refused, nothing changes), then exactly at it
                     g.plan.push_back(Plan::TraderOp { vi: v.idx, who: Who::Id(p.t), op: TOp::AfterFlat(0), block: Blk::Same });
                     g.plan.push_back(Plan::TraderOp { vi: v.idx, who: Who::Id(p.t), op: TOp::AfterFlat(1), block: Blk::Same });
+                    // … and the position re-opened over the flat record is increased (limit on the wrong side, then exact) and closed
+                    // (limit one below the quote, then at it): every leg of these orders must honour the caller's limit
+                    if (w.cfg.h + w.cfg.seed) % 2 == 0 {
+                        g.plan.push_back(Plan::TraderOp { vi: v.idx, who: Who::Id(p.t), op: TOp::IncreaseLim(0), block: Blk::Free });
+                        g.plan.push_back(Plan::TraderOp { vi: v.idx, who: Who::Id(p.t), op: TOp::IncreaseLim(1), block: Blk::Free });
+                    }
+                    g.plan.push_back(Plan::TraderOp { vi: v.idx, who: Who::Id(p.t), op: TOp::CloseLim(2), block: Blk::Free });
+                    g.plan.push_back(Plan::TraderOp { vi: v.idx, who: Who::Id(p.t), op: TOp::CloseLim(0), block: Blk::Free });
                 }
             }
         }
@@ -2209,6 +2248,33 @@ pub fn gen_step(w: &World, r: &mut Rng, g: &mut GenCtx, k: u64, stats: &mut Stat
                 g.plan.push_back(Plan::TraderOp { vi, who: Who::Id(a), op: TOp::Close, block: Blk::Next });
                 g.plan.push_back(Plan::Call { by: o, msg: vcfg(None, Some(0)) });
                 stats.count("campaign", "cap_on_empty_book");
+            }
+        }
+    }
+    // "an order too small to buy one raw unit of base": on a market priced at or above 1 a trader who holds a position (and one who does
+    // not) buys for 1–3 raw units of quote — the vAMM's answer is 0 base; whatever the engine does with such an order it must finish it
+    // (no in-flight record left) — then ANOTHER trader closes, and the first one closes
+    if k == 5 && g.plan.is_empty() && g.mode != Mode::Twin && (w.cfg.seed.wrapping_mul(0x9E37_79B9).wrapping_add(w.cfg.h.wrapping_mul(0x85EB_CA6B)) >> 7) % 8 == 6 {
+        let d = w.cfg.d;
+        if let Some(v) = vis.iter().find(|v| v.usable() && v.spot(d) >= 4 * d) {
+            let vi = v.idx;
+            let hh = w.cfg.seed.wrapping_mul(0xC2B2_AE35).wrapping_add(w.cfg.h.wrapping_mul(0x27D4_EB2F)) >> 5;
+            let a = TRADERS[(hh % 4) as usize];
+            let b = TRADERS[((hh + 1) % 4) as usize];
+            let c = TRADERS[((hh + 2) % 4) as usize];
+            if !w.engine_paused() {
+                if !ps.iter().any(|p| p.v == v.id && p.t == a) {
+                    g.plan.push_back(Plan::OpenFrac { vi, trader: a, long: true, frac_ppm: 10_000, high: false });
+                }
+                if !ps.iter().any(|p| p.v == v.id && p.t == b) {
+                    g.plan.push_back(Plan::OpenFrac { vi, trader: b, long: hh % 2 == 0, frac_ppm: 10_000, high: false });
+                }
+                g.plan.push_back(Plan::TraderOp { vi, who: Who::Id(a), op: TOp::OpenDustAny(1 + (hh >> 3) % 3), block: Blk::Next });
+                g.plan.push_back(Plan::TraderOp { vi, who: Who::Id(b), op: TOp::Close, block: Blk::Next });
+                g.plan.push_back(Plan::TraderOp { vi, who: Who::Id(c), op: TOp::OpenDustAny(1 + (hh >> 5) % 3), block: Blk::Free });
+                g.plan.push_back(Plan::LiqBy { vi, by: LIQUIDATOR, block: Blk::Free });
+                g.plan.push_back(Plan::TraderOp { vi, who: Who::Id(a), op: TOp::Close, block: Blk::Next });
+                stats.count("campaign", "dust_order");
             }
         }
     }
